@@ -288,3 +288,33 @@ h_driver_load(void)
     VCOVER(ret == 0 && bg.n_lib_close == 0, "library absent");
     H_END;
 }
+
+/* Life cycle of the lazily built constructor table of basic.storage.c: any interleaving of
+ * "open a storage device" and "driver shutdown" keeps working - a second driver instance
+ * (or a re-initialised one in a process that kept the library loaded) must find either no
+ * table or a valid one, never a dangling pointer. Loop-free history: the table state before
+ * the first step is arbitrary-but-reachable (absent, or built by an earlier open). */
+void
+h_storage_table_lifecycle(void)
+{
+    memset(&bg, 0, sizeof(bg));
+    bg.made_kind = -1;
+    if (nd_bool()) {
+        struct Storage* s0 = basics_make_storage(BasicDevice_Storage_Trash); /* table built earlier */
+        (void)s0;
+    }
+    basics_storage_shutdown(0); /* one driver instance goes away */
+    memset(&bg, 0, sizeof(bg));
+    bg.made_kind = -1;
+    enum BasicDeviceKind kind = (enum BasicDeviceKind)(nd_uchar() % BasicDeviceKindCount);
+    struct Storage* st = basics_make_storage(kind); /* another instance opens a storage device */
+    VASSERT(st == 0 || (IS_STO_ID(kind) && bg.made_kind == (int)kind && bg.n_make_storage[kind] == 1),
+            "[C12.open-yields-described-kind] after a driver shutdown a storage id still constructs exactly that storage device");
+    VASSERT(st != 0 || !IS_STO_ID(kind) || bg.made_kind == -1 || bg.ctor_fails,
+            "[C12.bad-input-is-error] a failed open after a shutdown is an allocation failure or a non-storage id");
+    basics_storage_shutdown(0);
+    basics_storage_shutdown(0); /* idempotent: 'may be called multiple times' */
+    VCOVER(st != 0 && kind == BasicDevice_Storage_Raw, "raw opened after a shutdown");
+    VCOVER(st == 0 && !IS_STO_ID(kind), "camera id is not a storage device");
+    H_END;
+}
